@@ -230,6 +230,11 @@ def flag_guards(fi, node):
     for (g, in_body) in enclosing_ifs(fi, node):
         t = g.test
         neg = False
+        if not any(x is node for x in ast.walk(g)):
+            # an earlier guard clause: a precondition that makes the whole operation fail (raise) is not a condition of this site
+            side = g.body if not in_body else g.orelse
+            if side and isinstance(side[-1], ast.Raise):
+                continue
         if isinstance(t, ast.UnaryOp) and isinstance(t.op, ast.Not):
             t, neg = t.operand, True
         if isinstance(t, ast.Name) and t.id in fi.params and isinstance(fi.default_of(t.id), ast.Constant) and isinstance(fi.default_of(t.id).value, bool):
